@@ -16,6 +16,7 @@ def run(res):
     # (B) recorded executions over larger pools (10 ids incl. non-integer ones, 10 components, diamond), validated by TLC
     th = res.tier == 'thorough'
     wc.trace_validate(res, 'c01_recorded', wc.big({'create', 'create2', 'add', 'remove', 'delete', 'process', 'clear'}), 2000 if th else 150, 60)
+    wc.repo_tests_validate(res)
     # non-vacuity: the as-implemented branches violate the invariants
     wc.switch_run(res, 'c01', K, 'ReplaceBeforeIndex', ('IndexIsTranspose', 'QueriesAgree'))
     wc.switch_run(res, 'c01', K, 'AutoIdSkipsUsed', ('AutoIdFresh',))
